@@ -370,9 +370,6 @@ func credAttrsOfKind(kind string) []string {
 // classifyCred names the situation of a credential that did not arrive as given.
 func classifyCred(mi *methodInfo, kind string, sent, got []string) string {
 	if kind == "basic" {
-		if strings.Contains(sent[0], ":") {
-			return "basic-username-with-colon"
-		}
 		return "credential-changed:basic"
 	}
 	attr := credAttrsOfKind(kind)[0]
@@ -389,8 +386,6 @@ func classifyCred(mi *methodInfo, kind string, sent, got []string) string {
 		return "bearer-token-empty"
 	case inHeader && s != "" && (s[0] == '\t' || s[len(s)-1] == '\t'):
 		return "header-credential-trimmed"
-	case hidesImplicit(mi.M, attr) && len(got) == 1 && got[0] == "":
-		return "inline-body-hides-implicit-credential"
 	}
 	l := loc
 	if i := strings.Index(l, ":"); i >= 0 {
@@ -425,6 +420,14 @@ func judge(res *vh.Result, idx int, mi *methodInfo, ex exchange, ob *rt.Obs, dec
 	fail := func(sig, what string) { res.Fail(sig, what, in) }
 	if ob.Panic != "" {
 		fail("driver-panic", "panic while running the exchange: "+firstLine(ob.Panic))
+	}
+	// a Basic user name holding ':' cannot be transmitted: the generated client refuses it
+	if kindsOf(d, eff)["basic"] && strings.Contains(credValue(m, ex.Creds, attrUser), ":") {
+		if ob.Invoked != 0 || len(ob.AuthCalls) != 0 || ob.Req != nil || ob.ClientErr == nil || ob.ClientErr.Name != "invalid_pattern" {
+			fail("basic-colon-not-refused", fmt.Sprintf("%s.%s: the Basic user name %q holds a ':' and cannot be sent (RFC 7617); the client must refuse it with invalid_pattern and send nothing (invoked %d, callbacks %d, request sent %v, client error %v)",
+				ex.Service, ex.Method, credValue(m, ex.Creds, attrUser), ob.Invoked, len(ob.AuthCalls), ob.Req != nil, ob.ClientErr))
+		}
+		return fmt.Sprintf("(%d, R_%s, L_%s, %s, %s, %d, [], None)", idx, mi.Def, mi.Def, coqCreds(mi, ex.Creds), coqStrs(ex.Rejects), ob.Invoked)
 	}
 	calls, invoked, rejecting := shortCircuit(d, eff, rejects)
 
@@ -483,7 +486,7 @@ func judge(res *vh.Result, idx int, mi *methodInfo, ex exchange, ob *rt.Obs, dec
 	}
 	// 2b. on the wire every credential of the effective requirements sits in the place the
 	// design gives it, and nowhere in the body unless the body is that place
-	if (ex.Stream == "main" || ex.Stream == "witness:inline-body-sends-whole-payload") && ob.Req != nil && len(eff) > 0 {
+	if ex.Stream == "main" && ob.Req != nil && len(eff) > 0 {
 		q, _ := url.ParseQuery(ob.Req.Query)
 		var body any
 		_ = json.Unmarshal([]byte(ob.Req.Body), &body)
@@ -494,14 +497,9 @@ func judge(res *vh.Result, idx int, mi *methodInfo, ex exchange, ob *rt.Obs, dec
 			}
 			return ""
 		}
-		inline := m.HTTP.Body != nil && len(m.HTTP.Body.Attrs) > 0
 		misplaced := func(attr, where, want, got string) {
 			in["wire_expected"], in["wire_found"], in["request_body"] = want, got, ob.Req.Body
-			sig := "credential-not-in-designed-place:" + attr
-			if inline && strings.HasPrefix(where, "body") {
-				sig = "inline-body-sends-whole-payload"
-			}
-			fail(sig, fmt.Sprintf("%s.%s: credential %q should travel as %s = %q, the request carries %q", ex.Service, ex.Method, attr, where, want, got))
+			fail("credential-not-in-designed-place:"+attr, fmt.Sprintf("%s.%s: credential %q should travel as %s = %q, the request carries %q", ex.Service, ex.Method, attr, where, want, got))
 		}
 		effKinds := kindsOf(d, eff)
 		for _, a := range credAttrs(effKinds) {
@@ -544,13 +542,9 @@ func judge(res *vh.Result, idx int, mi *methodInfo, ex exchange, ob *rt.Obs, dec
 			}
 			if loc != "body" && loc != "inline-body" {
 				for k, x := range bodyObj {
-					if sx, _ := x.(string); strings.EqualFold(k, a) || (sx == v && len(v) >= 6) {
+					if _ = x; strings.EqualFold(k, a) { // by key: two credentials may legitimately hold equal values
 						in["request_body"] = ob.Req.Body
-						sig := "credential-leaks-into-body:" + a
-						if inline {
-							sig = "inline-body-sends-whole-payload"
-						}
-						fail(sig, fmt.Sprintf("%s.%s: credential %q is designed to travel in %s but the request body also carries it (key %q)", ex.Service, ex.Method, a, credPlace(mi, a), k))
+						fail("credential-leaks-into-body:"+a, fmt.Sprintf("%s.%s: credential %q is designed to travel in %s but the request body also carries it (key %q)", ex.Service, ex.Method, a, credPlace(mi, a), k))
 					}
 				}
 			}
@@ -720,20 +714,4 @@ func coqAttr(mi *methodInfo, goField string) string {
 		return "AKey " + vh.CoqString(apiKeyName(mi.D))
 	}
 	return "AKey " + vh.CoqString("?"+goField)
-}
-
-// hidesImplicit: the method has an explicit inline-object body that does not list attr, and attr
-// is mapped nowhere (finding inline-body-hides-implicit-credential: goa then treats it as a body
-// attribute and the credential is dropped).
-func hidesImplicit(m *dg.Method, attr string) bool {
-	return m.HTTP != nil && m.HTTP.Body != nil && len(m.HTTP.Body.Attrs) > 0 && locFromMethod(m, attr) == "implicit"
-}
-
-func anyHiddenImplicit(m *dg.Method) bool {
-	for _, a := range payloadAttrs(m) {
-		if a != attrUser && a != attrPass && hidesImplicit(m, a) {
-			return true
-		}
-	}
-	return false
 }
